@@ -35,8 +35,8 @@ def _atoms(c):
     per = {}
     for atom, val in c.assume:
         s = repr(atom)
-        if "module_import" in s:
-            # one decision per imported module name
+        if "module_import" in s and "__dict__" not in s and "__all__" not in s:
+            # one decision per imported module name (decisions about the *contents* of the module found - its __all__ - are not lookups)
             for nm in ("math", "os.path", "os", "json.decoder", "json", "subprocess", "homeassistant.const", "homeassistant.core", "stubs_util", "stubsx.sub"):
                 if f"'{nm}'" in s:
                     per[nm] = val
@@ -281,6 +281,10 @@ def run(ctx):
               f"AstEval reads allow_all_imports from the removed entry, imports the new configuration forbids are performed", key="config entry rebound on setup",
               node=program.func("__init__.py::async_setup_entry"), rel="__init__.py", sample={"readers": len(reads)})
 
+    ctx.rule("R17.10", "a relative import that finds no pyscript module fails with ModuleNotFoundError: it never falls back to an installed module of that name "
+             "(`from .math import floor` in a package without math.py must not bind the standard library's math)", floor=2)
+    relative_import_rule(ctx, program, "R17.10")
+
     ctx.rule("R17.9", "text run through eval()/exec() keeps the script's print and log.* (the evaluator-level names of the calling evaluator) for every combination of "
              "explicit globals / locals: explicit namespaces replace the variables, not the logger functions", floor=3)
     eval_namespace_rule(ctx, program, "R17.9")
@@ -332,3 +336,24 @@ def eval_namespace_rule(ctx, program, rid):
                   msg=f"eval()/exec() with {label}: the evaluator that runs the text has evaluator-level names {[sorted(k.v for k, _ in t.items) if isinstance(t, DictV) else repr(t) for t in seen]}: "
                   "print / log.* of the calling script are not defined in the evaluated text (NameError instead of a line in the script's log)", key=f"eval namespaces {label}",
                   node=program.func(uid), rel="eval.py")
+
+
+def relative_import_rule(ctx, program, rid):
+    from ..absint import Const, DictV, ObjV, Sym
+    from ..flow import FlowPolicy, exits, run_flow
+    from ..schematic import to_nodev
+    uid = "eval.py::AstEval.ast_importfrom"
+    allowed = const_set(program.module_const("const.py", "ALLOWED_IMPORTS")) or set()
+    for src in ("from .math import floor", "from ..json import dumps", "from .math import *"):
+        for allow_all in (False, True):
+            pol = FlowPolicy(program, may_raise_all=False, cancel=False, events=["Function.hass.async_add_executor_job", "self.bind_name"],
+                             globals_={"ALLOWED_IMPORTS": Const(frozenset(allowed)), "CONF_ALLOW_ALL_IMPORTS": Const("allow_all_imports")},
+                             summaries={"self.global_ctx.module_import": lambda i, n, a, k, c, o: [(c, Const(None))],
+                                        "self.config_entry.data.get": lambda i, n, a, k, c, o, v=allow_all: [(c, Const(v))]})
+            pol.loop_unroll = 3
+            out = run_flow(program, uid, pol, args={"self": ObjV("self", "AstEval"), "arg": to_nodev(ast.parse(src).body[0])},
+                           heap={"sys.modules": DictV([(Const("math"), Sym(("stdlib math",))), (Const("json"), Sym(("stdlib json",)))]), "self.sym_table": DictV([])})
+            got = sorted({(k, getattr(c.env.get("$exc"), "cls", None), sum(1 for e in c.trace if e[0] == "call")) for k, c, d in exits(out)})
+            ctx.check(got == [("raise", "ModuleNotFoundError", 0)], rid, uid, f"`{src}` with no such pyscript module, allow_all_imports={allow_all}",
+                      msg=f"`{src}` when the package has no such module (allow_all_imports={allow_all}): (exit, exception, imports/bindings made) = {got}; Python raises ModuleNotFoundError - "
+                      "here the installed module of that name is imported and bound instead", key=f"relative fallback {src} {allow_all}", node=program.func(uid), rel="eval.py")
